@@ -195,8 +195,19 @@ func (rt *runtime) cmplEvaluateNodeForInStatement(node *nodeForInStatement) Valu
 	returned := false
 	for obj != nil {
 		enumerateValue := emptyValue
+		// The names are collected first: the body may delete or add properties,
+		// and a property deleted before it is reached is not visited, none is
+		// visited twice and none is skipped (ECMA 262 12.6.4).
+		names := []string{}
 		obj.enumerate(false, func(name string) bool {
+			names = append(names, name)
+			return true
+		})
+		visit := func(name string) bool {
 			if visited[name] {
+				return true
+			}
+			if obj.getOwnProperty(name) == nil {
 				return true
 			}
 			into := rt.cmplEvaluateNodeExpression(into)
@@ -228,7 +239,12 @@ func (rt *runtime) cmplEvaluateNodeForInStatement(node *nodeForInStatement) Valu
 				}
 			}
 			return true
-		})
+		}
+		for _, name := range names {
+			if !visit(name) {
+				break
+			}
+		}
 		if !enumerateValue.isEmpty() {
 			result = enumerateValue
 		}
